@@ -92,7 +92,6 @@ package cluster
 // the channel for that key
 //@ func (*Peer).AddState
 //@   props C19
-//@   nosafe
 //@   requires p != nil && p.states != nil
 //@   opaque cluster.NewChannel
 //@   noeffect cluster.NewChannel
